@@ -52,3 +52,13 @@ PROPS['C13']={
  'assumptions':PIPE_ASSUME+['directory enumeration order is not varied (glob returns paths sorted; stated, not checked)'],
  'obligations':[{'name':'determinism','module':'harness.C13','cls':'Determinism','quick':{'nlinks':2},'thorough':{'nlinks':3}},
                 {'name':'determinism_two_steps','module':'harness.C13','cls':'Determinism','tier_only':'thorough','quick':{},'thorough':{'nlinks':2,'two_steps':True}}]}
+
+PROPS['C15']={
+ 'bounds_statement':'in_toto_verify from MIR with the recursive call executed for real (depth 2): sub-layout filed under an authorized / unauthorized key, 1-2 sub-layout signatures with free validity, expired or not, inner links present/absent in the dedicated sub-directory with free validity, decoys in the parent directory; summary compared field by field.',
+ 'assumptions':PIPE_ASSUME,
+ 'obligations':[{'name':'sublayout','module':'harness.C15','cls':'Sublayout','quick':{'inner_steps':2},'thorough':{'inner_steps':3}}]}
+
+PROPS['C08']={
+ 'bounds_statement':'in_toto_verify from MIR with a ghost event log behind the two side-effecting calls (in_toto_run, fs::write): every combination of stage failures (owner signature, expiry, missing / badly signed link, failing step rule) x inspection outcomes (spawn error, any i32 exit status, products, inspection rules) within the shape bound.',
+ 'assumptions':PIPE_ASSUME+['the inspection subprocess and the files it touches are outside the claim; the stub returns what runlib documents: Err or a link with Some(exit status)'],
+ 'obligations':[{'name':'inspections','module':'harness.C08','cls':'Inspections','quick':{'ninsp':1},'thorough':{'ninsp':2}}]}
